@@ -104,9 +104,9 @@ def parse_fn_block(lines, i, end_marker='end'):
             elif words[0] in ('loop-start', 'loop-end'):
                 cur = []
                 blk.anchors.append((words[0], '', int(words[1]), cur))
-            elif words[0] == 'before-result':
+            elif words[0] in ('before-result', 'at-end'):
                 cur = []
-                blk.anchors.append(('before-result', '', 1, cur))
+                blk.anchors.append((words[0], '', 1, cur))
             elif words[0] in ('before', 'after', 'after-block'):
                 m = re.match(r'(before|after-block|after)\s+"(.*)"\s*(#(\d+))?$', body)
                 if not m:
@@ -681,6 +681,11 @@ def annotate_fn(sf, item, blk, counts, meta, mode, qual_name, extra_ensures=None
     # anchors
     for where, anchor, occ, lines in blk.anchors:
         if where in ('loop-start', 'loop-end'):
+            continue
+        if where == 'at-end':
+            e = body.rstrip().rfind('}')
+            body = body[:e] + '\n' + '\n'.join(lines) + '\n' + body[e:]
+            counts.bump('R3')
             continue
         if where == 'before-result':
             # before the last non-empty line of the fn body (its result expression)
